@@ -153,7 +153,7 @@ static void STRF(substr_prep,
         abort();
     }
 
-    if (pos + *len > size) {
+    if (*len > size - pos) {
         *len = size - pos;
     }
 }
